@@ -248,7 +248,7 @@ impl Function {
                     }
                 }
             },
-            None => Ok(Val::String(string)),
+            None => Ok(Val::String("".into())),
         }
     }
 
